@@ -61,8 +61,20 @@ void SignalHandlerFunc(int signo)
 
     const auto &this_signal_ctx = _signal_ctxs_[signo];
 
+    //! 先把要通知的fd都取出来，再逐个写。因为一旦写了第一个fd，对应的Loop线程可能立即处理
+    //! 该信号（比如 Oneshot 的 SignalEvent 会注销自己），从而修改 this_signal_ctx。如果此时
+    //! 本函数还在另一个线程里遍历 write_fds，就会访问到被修改或已释放的内存
+    constexpr size_t kMaxNotifyFds = 256;
+    int notify_fds[kMaxNotifyFds];
+    size_t notify_fd_num = 0;
+    for (int fd : this_signal_ctx.write_fds) {
+        if (notify_fd_num == kMaxNotifyFds)
+            break;
+        notify_fds[notify_fd_num++] = fd;
+    }
+
     //! 先执行旧的信号
-    const auto &old_handler = this_signal_ctx.old_handler;
+    const auto old_handler = this_signal_ctx.old_handler;
 #ifdef  TBOX_USE_SIGACTION
     if (old_handler.sa_flags & SA_SIGINFO) {
         if (old_handler.sa_sigaction)
@@ -81,8 +93,8 @@ void SignalHandlerFunc(int signo)
 #endif
 
     //! 再执行自己的
-    for (int fd : this_signal_ctx.write_fds) {
-        auto wsize = write(fd, &signo, sizeof(signo));
+    for (size_t i = 0; i < notify_fd_num; ++i) {
+        auto wsize = write(notify_fds[i], &signo, sizeof(signo));
         (void)wsize;    //! 消除编译警告
     }
 }
